@@ -119,10 +119,10 @@ for k, f in F.items():
     elif f["kind"] == "targets":
         CASES += ["%s:n%d" % (k, n) for n in (0, 1, 2, 3, 5)]
     elif f["kind"] == "compid":
-        CASES += [k + ":O", k + ":H"]
+        CASES += [k + ":O", k + ":H"] + ([k + ":HO"] if f["section"] == "UH" else [])
     else:
         CASES.append(k)
-QUICK = ["PH:plid", "PH:eid", "PH:commit", "PH:creator", "PH:obmc", "UH:sev", "UH:flags", "UH:states", "UH:comp:H",
+QUICK = ["UH:comp:HO", "PH:plid", "PH:eid", "PH:commit", "PH:creator", "PH:obmc", "UH:sev", "UH:flags", "UH:states", "UH:comp:H",
          "EH:mtm:n7", "EH:symptom:n4", "MT:sn:n11", "LP:targets:n3", "LP:name:n4", "LP:part_id"]
 
 SLOW = ["UH:flags"]      # 256 paths (8 independent bit tests), ~0.5 s each
@@ -147,7 +147,7 @@ def h_field() -> bool:
     f = F[parts[0] + ":" + parts[1]]
     arg = parts[2] if len(parts) > 2 else ""
     sec, name, kind = f["section"], f["name"], f["kind"]
-    creator = arg if kind == "compid" else "O"
+    creator = arg[0] if kind == "compid" else "O"
     base = {"creator": ord(creator)} if sec == "PH" else {}
     kw = {}
     conds = []           # oracle conditions for the field's own key(s)
@@ -261,6 +261,14 @@ def h_field() -> bool:
             conds.append(numval_eq(out[f["key"]], x, 16))
     elif kind == "hidden":
         pass
+
+    if kind == "compid" and arg == "HO":
+        # the same bytes shown for another creator right afterwards (PHYP ids are ASCII, all others hex)
+        try:
+            out2, _ = decode(sec, data, "O")
+        except Exception as e:
+            return verdict(False, obs={"exception": repr(e)})
+        conds.append(numval_eq(out2[f["key"]], x, 16))
 
     # ---- (ii) non-interference: every other displayed value as in the template decode
     others_ok = list(out.keys()) == list(out0.keys()) or kind in ("targets",)
